@@ -1,0 +1,18 @@
+//go:build verif
+
+package serde
+
+// Contracts for the deductive checker in /verif (comment-only; compiled only under the verif tag).
+//
+// Strict decoding is configured: the options handed to the CBOR library forbid duplicate map keys, indefinite
+// lengths, unknown fields, bignum tags, NaN/Inf, byte-string map keys, and bound nesting and sizes; the encoder
+// is the core-deterministic one. That the library then behaves accordingly is an assumed dependency.
+
+//@ func updateModes
+//@   property C12
+//@   assert after "enc, err = cbor.CoreDetEncOptions().EncModeWithTags(tags)": enc == res(cbor.CoreDetEncOptions().EncModeWithTags(tags), 0)
+//@   assert before "dec, err = decOptions.DecModeWithTags(tags)": decOptions.DupMapKey == cbor.DupMapKeyEnforcedAPF && decOptions.IndefLength == cbor.IndefLengthForbidden && decOptions.ExtraReturnErrors == cbor.ExtraDecErrorUnknownField
+//@   assert before "dec, err = decOptions.DecModeWithTags(tags)": decOptions.BignumTag == cbor.BignumTagForbidden && decOptions.NaN == cbor.NaNDecodeForbidden && decOptions.Inf == cbor.InfDecodeForbidden && decOptions.MapKeyByteString == cbor.MapKeyByteStringForbidden
+//@   assert before "dec, err = decOptions.DecModeWithTags(tags)": decOptions.MaxNestedLevels == DefaultMaxNestedLevels && decOptions.MaxArrayElements == DefaultMaxArrayElements && decOptions.MaxMapPairs == DefaultMaxMapPairs && DefaultMaxNestedLevels <= 32 && DefaultMaxArrayElements <= 131072 && DefaultMaxMapPairs <= 131072
+//@   assert before "dec, err = decOptions.DecModeWithTags(tags)": decOptions.TimeTag == cbor.DecTagRequired && decOptions.FieldNameMatching == cbor.FieldNameMatchingCaseSensitive && decOptions.UTF8 == cbor.UTF8RejectInvalid && decOptions.ByteStringToString == cbor.ByteStringToStringForbidden
+//@   assert after "dec, err = decOptions.DecModeWithTags(tags)": dec == res(decOptions.DecModeWithTags(tags), 0)
